@@ -9,6 +9,7 @@ CONSTANTS
   AbsWidths = {2, 4}
   EquOffs = {}
   SelfKinds = {}
+  Pages = {}
 INIT OInit
 NEXT ONext
 POSTCONDITION Accepted
